@@ -150,7 +150,7 @@ def run(ctx):
     for path, data in vclgen.repo_vcl_files(V.REPO):
         cases.append(("auto", data, path, None, False, False))
     g = vclgen.Gen(rng)
-    n_prog = 40000 if thorough else 1500
+    n_prog = 20000 if thorough else 1500
     for i in range(n_prog):
         k = rng.random()
         if k < 0.35:
@@ -162,7 +162,7 @@ def run(ctx):
         else:
             cases.append(("vcl", g.program().encode(), "gen-vcl-%d" % i, None, False, True))
     eg = parsegen.ExprGen(rng)
-    n_expr = 400000 if thorough else 15000
+    n_expr = 500000 if thorough else 15000
     maxd = 10 if thorough else 6
     depth_hist = {}
     for i in range(n_expr):
@@ -177,81 +177,109 @@ def run(ctx):
     for label, text, sexp in parsegen.int_cases() + parsegen.escape_cases():
         cases.append(("expr", text.encode(), label, sexp if sexp is not None else "ERR", True, sexp is not None))
 
-    ireq = ["src %s %s" % (c[0], c[1].hex()) for c in cases]
-    irep = V.run_batch(impl, ireq, hang_s=10)
-    mreq, keep = [], []
     outcomes = {"ok": 0, "err": 0}
     err_kinds = {}
-    streams = []       # (mode, token list) of the inputs that parse, for the malformed stream
+    streams = []       # (mode, token list, oracle) of inputs that parse, for the malformed stream (bounded sample)
     pool = {}
-    for c, rep in zip(cases, irep):
-        m, s, label, intent, has_intent, must_parse = c
-        if rep is None or rep.startswith(("hang", "died", "crash", "skipped", "bad", "srcmismatch")) or rep.count(" | ") != 2:
-            ctx.violation("the parser %s on %s" % ((rep or "gives no reply").split(" ")[0], label),
-                          {"mode": m, "source_hex": s.hex()[:4000], "reply": (rep or "")[:400]},
-                          {"kind": "impl-" + (rep or "none").split(" ")[0]})
-            continue
-        toks, orc, out = rep.split(" | ")
-        mreq.append("%s %s %s" % (m, toks or "-", orc or "-"))
-        keep.append((c, toks, orc, out))
-    mrep = V.run_batch([model], mreq, hang_s=120, mem_kb=8_000_000)
-    agree = 0
-    intent_ok = 0
-    grammar_ok = 0
+    st = {"agree": 0, "intent_ok": 0, "grammar_ok": 0, "n_src": 0, "b_agree": 0, "n_mal": 0, "impl_s": 0.0, "model_s": 0.0}
     nontrivial = set()
     node_kinds = {}
-    for (c, toks, orc, out), mr in zip(keep, mrep):
-        m, s, label, intent, has_intent, must_parse = c
-        outcomes["ok" if out.startswith("ok") else "err"] += 1
-        if out.startswith("err"):
-            k = out.split(" ")[1]
-            err_kinds[k] = err_kinds.get(k, 0) + 1
-        if out != mr:
-            ctx.violation("parse result differs between parser/*.go and Model/Parse*.v on %s" % label,
-                          {"mode": m, "source_hex": s.hex()[:4000], "source": s[:300].decode("utf-8", "replace"),
-                           "tokens": toks[:3000], "impl": out[:2000], "model": (mr or "")[:2000]})
-        else:
-            agree += 1
-        if out.startswith("ok"):
-            nontrivial.add(out)
-            tl = toks.split(";") if toks else []
-            if len(tl) <= 400:
-                streams.append((m, tl, orc))
-            for t in tl:
-                pool[t] = pool.get(t, 0) + 1
-            for k in re.findall(r"\((\w+)", out):
-                node_kinds[k] = node_kinds.get(k, 0) + 1
-        # direct oracle on the implementation: a program derived from the documented grammar parses
-        if must_parse and not has_intent:
+    import hashlib
+    import time as _t
+
+    def h(x):
+        return hashlib.blake2b(x.encode(), digest_size=8).digest()
+
+    def do_sources(chunk):
+        ireq = ["src %s %s" % (c[0], c[1].hex()) for c in chunk]
+        t0 = _t.time()
+        irep = V.run_batch(impl, ireq, hang_s=10)
+        st["impl_s"] += _t.time() - t0
+        mreq, keep = [], []
+        for c, rep in zip(chunk, irep):
+            m, s, label, intent, has_intent, must_parse = c
+            if rep is None or rep.startswith(("hang", "died", "crash", "skipped", "bad", "srcmismatch")) or rep.count(" | ") != 2:
+                ctx.violation("the parser %s on %s" % ((rep or "gives no reply").split(" ")[0], label),
+                              {"mode": m, "source_hex": s.hex()[:4000], "reply": (rep or "")[:400]},
+                              {"kind": "impl-" + (rep or "none").split(" ")[0]})
+                continue
+            toks, orc, out = rep.split(" | ")
+            mreq.append("%s %s %s" % (m, toks or "-", orc or "-"))
+            keep.append((c, toks, orc, out))
+        t0 = _t.time()
+        mrep = V.run_batch([model], mreq, hang_s=120, mem_kb=8_000_000)
+        st["model_s"] += _t.time() - t0
+        for (c, toks, orc, out), mr in zip(keep, mrep):
+            m, s, label, intent, has_intent, must_parse = c
+            st["n_src"] += 1
+            outcomes["ok" if out.startswith("ok") else "err"] += 1
+            if out.startswith("err"):
+                k = out.split(" ")[1]
+                err_kinds[k] = err_kinds.get(k, 0) + 1
+            if out != mr:
+                ctx.violation("parse result differs between parser/*.go and Model/Parse*.v on %s" % label,
+                              {"mode": m, "source_hex": s.hex()[:4000], "source": s[:300].decode("utf-8", "replace"),
+                               "tokens": toks[:3000], "impl": out[:2000], "model": (mr or "")[:2000]})
+            else:
+                st["agree"] += 1
             if out.startswith("ok"):
-                grammar_ok += 1
-            else:
-                ctx.violation("the Go parser rejects a program derived from the documented grammar (%s, %s mode): %s" % (label, m, out),
-                              {"mode": m, "source": s.decode("utf-8", "replace")[:1500], "source_hex": s.hex()[:4000],
-                               "impl": out[:300], "model": (mr or "")[:300]},
-                              {"kind": "grammar-rejected", "mode": m, "error": out})
-        # direct oracle on the implementation: the generator's intended tree
-        if has_intent:
-            if intent == "ERR":
-                good = out.startswith("err")
-            else:
-                good = (out == "ok %s 0" % intent)
-            if good:
-                intent_ok += 1
-            else:
-                ctx.violation("the Go parser does not build the tree the documented grammar dictates (%s)" % label,
-                              {"mode": m, "source": s.decode("utf-8", "replace")[:600], "source_hex": s.hex()[:4000],
-                               "intended": (intent or "")[:2000], "impl": out[:2000], "model": (mr or "")[:2000]})
+                nontrivial.add(h(out))
+                tl = toks.split(";") if toks else []
+                if len(tl) <= 400 and (len(streams) < 6000 or rng.random() < 0.05):
+                    if len(streams) < 6000:
+                        streams.append((m, tl, orc))
+                    else:
+                        streams[rng.randrange(len(streams))] = (m, tl, orc)
+                if len(pool) < 20000:
+                    for t in tl:
+                        pool[t] = pool.get(t, 0) + 1
+                if st["n_src"] < 30000:
+                    for k in re.findall(r"\((\w+)", out):
+                        node_kinds[k] = node_kinds.get(k, 0) + 1
+            # direct oracle on the implementation: a program derived from the documented grammar parses
+            if must_parse and not has_intent:
+                if out.startswith("ok"):
+                    st["grammar_ok"] += 1
+                else:
+                    ctx.violation("the Go parser rejects a program derived from the documented grammar (%s, %s mode): %s" % (label, m, out),
+                                  {"mode": m, "source": s.decode("utf-8", "replace")[:1500], "source_hex": s.hex()[:4000],
+                                   "impl": out[:300], "model": (mr or "")[:300]},
+                                  {"kind": "grammar-rejected", "mode": m, "error": out})
+            # direct oracle on the implementation: the generator's intended tree
+            if has_intent:
+                if intent == "ERR":
+                    good = out.startswith("err")
+                else:
+                    good = (out == "ok %s 0" % intent)
+                if good:
+                    st["intent_ok"] += 1
+                else:
+                    ctx.violation("the Go parser does not build the tree the documented grammar dictates (%s)" % label,
+                                  {"mode": m, "source": s.decode("utf-8", "replace")[:600], "source_hex": s.hex()[:4000],
+                                   "intended": (intent or "")[:2000], "impl": out[:2000], "model": (mr or "")[:2000]})
+
+    n_cases = len(cases)
+    n_intent = sum(1 for c in cases if c[4])
+    n_grammar = sum(1 for c in cases if c[5] and not c[4])
+    sample_cases = [cases[i] for i in (0, n_cases // 3, n_cases // 2, n_cases - 1)]
+    CH = 20000
+    for i in range(0, n_cases, CH):
+        do_sources(cases[i:i + CH])
+        if len(ctx.violations) > 50:
+            break
+    del cases
 
     # ------------------------------------------------------------- phase B: malformed token streams
-    n_mut = 1200000 if thorough else 40000
+    n_mut = 1500000 if thorough else 40000
     poolk = sorted(pool)
     mk = {}
-    breq = []
-    bmeta = []
-    if streams:
-        small = [x for x in streams if len(x[1]) <= 120] or streams
-        for i in range(n_mut):
+    b_out = {"ok": 0, "err": 0}
+    last_b = []
+    small = [x for x in streams if len(x[1]) <= 120] or streams
+
+    def do_mutations(count):
+        breq, bmeta = [], []
+        for i in range(count):
             m, tl, orc = rng.choice(small)
             nt, kind = mutate_tokens(rng, tl, poolk)
             if rng.random() < 0.2:
@@ -260,49 +288,59 @@ def run(ctx):
             mk[kind.split("+")[0]] = mk.get(kind.split("+")[0], 0) + 1
             breq.append("toks %s %s" % (m, ";".join(nt)))
             bmeta.append((m, kind))
-    brep = V.run_batch(impl, breq, hang_s=10)
-    bm = []
-    bkeep = []
-    for (m, kind), q, rep in zip(bmeta, breq, brep):
-        if rep is None or rep.startswith(("hang", "died", "crash", "skipped", "bad", "srcmismatch")) or rep.count(" | ") != 2:
-            ctx.violation("the parser %s on a malformed token stream (%s)" % ((rep or "gives no reply").split(" ")[0], kind),
-                          {"request": q[:4000], "reply": (rep or "")[:400]}, {"kind": "impl-" + (rep or "none").split(" ")[0]})
-            continue
-        toks, orc, out = rep.split(" | ")
-        bm.append("%s %s %s" % (m, toks or "-", orc or "-"))
-        bkeep.append((m, kind, toks, out))
-    bmrep = V.run_batch([model], bm, hang_s=120, mem_kb=8_000_000)
-    b_agree = 0
-    b_out = {"ok": 0, "err": 0}
-    for (m, kind, toks, out), mr in zip(bkeep, bmrep):
-        b_out["ok" if out.startswith("ok") else "err"] += 1
-        if out.startswith("err"):
-            k = out.split(" ")[1]
-            err_kinds[k] = err_kinds.get(k, 0) + 1
-        if out != mr:
-            ctx.violation("parse result on a malformed token stream (%s) differs between parser/*.go and Model/Parse*.v" % kind,
-                          {"mode": m, "tokens": toks[:4000], "impl": out[:2000], "model": (mr or "")[:2000]})
-        else:
-            b_agree += 1
-        nontrivial.add(toks)
+        t0 = _t.time()
+        brep = V.run_batch(impl, breq, hang_s=10)
+        st["impl_s"] += _t.time() - t0
+        bm, bkeep = [], []
+        for (m, kind), q, rep in zip(bmeta, breq, brep):
+            if rep is None or rep.startswith(("hang", "died", "crash", "skipped", "bad", "srcmismatch")) or rep.count(" | ") != 2:
+                ctx.violation("the parser %s on a malformed token stream (%s)" % ((rep or "gives no reply").split(" ")[0], kind),
+                              {"request": q[:4000], "reply": (rep or "")[:400]}, {"kind": "impl-" + (rep or "none").split(" ")[0]})
+                continue
+            toks, orc, out = rep.split(" | ")
+            bm.append("%s %s %s" % (m, toks or "-", orc or "-"))
+            bkeep.append((m, kind, toks, out))
+        t0 = _t.time()
+        bmrep = V.run_batch([model], bm, hang_s=120, mem_kb=8_000_000)
+        st["model_s"] += _t.time() - t0
+        for (m, kind, toks, out), mr in zip(bkeep, bmrep):
+            st["n_mal"] += 1
+            b_out["ok" if out.startswith("ok") else "err"] += 1
+            if out.startswith("err"):
+                k = out.split(" ")[1]
+                err_kinds[k] = err_kinds.get(k, 0) + 1
+            if out != mr:
+                ctx.violation("parse result on a malformed token stream (%s) differs between parser/*.go and Model/Parse*.v" % kind,
+                              {"mode": m, "tokens": toks[:4000], "impl": out[:2000], "model": (mr or "")[:2000]})
+            else:
+                st["b_agree"] += 1
+            nontrivial.add(h(toks))
+        last_b[:] = bkeep[-3:]
+
+    if streams:
+        done = 0
+        while done < n_mut and len(ctx.violations) <= 50:
+            k = min(50000, n_mut - done)
+            do_mutations(k)
+            done += k
 
     if not proved and not ctx.violations:
         ctx.violation("proof obligation of C02 no longer checks: " + (ctx.broken or "Props/C02.v"),
                       {"no_failing_input": True, "broken": ctx.broken,
                        "searched": "%d sources (of which %d with an intended tree) and %d malformed token streams: the Go parser builds "
-                                   "the intended trees and agrees with the model on all of them" % (len(keep), intent_ok, len(bkeep))})
-    ctx.samples = [{"source": cases[i][1][:200].decode("utf-8", "replace"), "label": cases[i][2]}
-                   for i in (0, len(cases) // 3, len(cases) // 2, len(cases) - 1)]
-    ctx.samples += [{"malformed_tokens": t[:200], "kind": k, "outcome": o[:80]} for _, k, t, o in bkeep[-3:]]
+                                   "the intended trees and agrees with the model on all of them" % (st["n_src"], st["intent_ok"], st["n_mal"])})
+    ctx.samples = [{"source": c[1][:200].decode("utf-8", "replace"), "label": c[2]} for c in sample_cases]
+    ctx.samples += [{"malformed_tokens": t[:200], "kind": k, "outcome": o[:80]} for _, k, t, o in last_b]
     ctx.coverage.update({
-        "evaluations": len(keep) + len(bkeep),
+        "evaluations": st["n_src"] + st["n_mal"],
         "distinct_nontrivial": len(nontrivial),
-        "sources": len(keep), "sources_agree": agree, "source_outcomes": outcomes,
-        "with_intended_tree": sum(1 for c in cases if c[4]), "intended_tree_matches": intent_ok,
-        "grammar_programs": sum(1 for c in cases if c[5] and not c[4]), "grammar_programs_accepted": grammar_ok,
+        "sources": st["n_src"], "sources_agree": st["agree"], "source_outcomes": outcomes,
+        "with_intended_tree": n_intent, "intended_tree_matches": st["intent_ok"],
+        "grammar_programs": n_grammar, "grammar_programs_accepted": st["grammar_ok"],
+        "seconds_in_go_parser": round(st["impl_s"], 1), "seconds_in_extracted_model": round(st["model_s"], 1),
         "operator_pair_cases": n_pairs, "operator_pairs_exhaustive": True,
         "expression_depth_histogram": dict(sorted(depth_hist.items())),
-        "malformed_streams": len(bkeep), "malformed_agree": b_agree, "malformed_outcomes": b_out,
+        "malformed_streams": st["n_mal"], "malformed_agree": st["b_agree"], "malformed_outcomes": b_out,
         "mutation_kinds": mk, "error_classes": dict(sorted(err_kinds.items())),
         "node_kinds": dict(sorted(node_kinds.items(), key=lambda kv: -kv[1])[:60]),
         "expr_generator_stats": dict(sorted(eg.stats.items())),
